@@ -117,9 +117,16 @@ class WrappedInstance:
     This is needed to clean it up from the cache after the instance reference died.
     """
 
+    instance_id: int = field(init=False, default=None)
+    """
+    The id of the instance.
+    This is needed to clean up the id-keyed index after the instance reference died.
+    """
+
     def __post_init__(self, instance: Symbol):
         self.instance_reference = weakref.ref(instance)
         self.instance_type = type(instance)
+        self.instance_id = id(instance)
 
     @property
     def instance(self) -> Optional[Symbol]:
@@ -227,10 +234,21 @@ class SymbolGraph(metaclass=SingletonMeta):
 
         :param wrapped_instance: The instance to remove.
         """
-        self._instance_index.pop(id(wrapped_instance.instance), None)
+        if self._instance_index.get(wrapped_instance.instance_id) is wrapped_instance:
+            del self._instance_index[wrapped_instance.instance_id]
         self._class_to_wrapped_instances[wrapped_instance.instance_type].remove(
             wrapped_instance
         )
+        # the graph drops the edges of the node, the relation index has to forget them too,
+        # otherwise a new node that reuses the index inherits the relations of the dead one
+        for indexed_relations in self._relation_index.values():
+            indexed_relations.difference_update(
+                [
+                    source_target
+                    for source_target in indexed_relations
+                    if wrapped_instance.index in source_target
+                ]
+            )
         self._instance_graph.remove_node(wrapped_instance.index)
 
     def remove_dead_instances(self):
